@@ -134,7 +134,7 @@ parse_comp(const char *str, int *n_objs, comp_info_t *comp)
                             u++;             /* skip ',' */
                         }
                         c = str[u];
-                        if ((!isdigit(c) && l == -1) || m >= (int)sizeof(stype) - 1) {
+                        if ((!isdigit((unsigned char)c) && l == -1) || m >= (int)sizeof(stype) - 1) {
                             printf("Input Error: Compression parameter not digit in <%s>\n", str);
                             goto out;
                         }
@@ -171,7 +171,7 @@ parse_comp(const char *str, int *n_objs, comp_info_t *comp)
                     /* here we could have 1, 2 or 3 digits (2 and 3 in the JPEG case) */
                     for (m = 0, u = i + 1; u < len; u++, m++) {
                         c = str[u];
-                        if (!isdigit(c) || m >= (int)sizeof(stype) - 1) {
+                        if (!isdigit((unsigned char)c) || m >= (int)sizeof(stype) - 1) {
                             printf("Input Error: Compression parameter not digit in <%s>\n", str);
                             goto out;
                         }
@@ -392,7 +392,7 @@ parse_chunk(const char *str, int *n_objs, int32 *chunk_lengths, int *chunk_rank)
         sdim[k] = c;
         k++; /* increment sdim index */
 
-        if (!isdigit(c) && c != 'x' && c != 'N' && c != 'O' && c != 'N' && c != 'E') {
+        if (!isdigit((unsigned char)c) && c != 'x' && c != 'N' && c != 'O' && c != 'N' && c != 'E') {
             printf("Input Error: Invalid chunking in <%s>\n", str);
             goto out;
         }
@@ -459,7 +459,7 @@ parse_number(char *str)
 
     for (i = 0; i < len; i++) {
         c = str[i];
-        if (!isdigit(c)) {
+        if (!isdigit((unsigned char)c)) {
             return -1;
         }
     }
